@@ -14,7 +14,9 @@ VERIF = Path(__file__).resolve().parent.parent
 REPO = Path(os.environ.get("VERIF_REPO", "/repo"))
 LEAN = VERIF / "lean"
 HARNESS = VERIF / "harness"
-EVIDENCE = VERIF / "evidence"
+# VERIF_EVIDENCE_DIR: where evidence files go (default /verif/evidence). tools/seeded_run.py points it at a scratch
+# directory so that runs against a deliberately broken tree never overwrite the committed evidence of the unchanged tree.
+EVIDENCE = Path(os.environ.get("VERIF_EVIDENCE_DIR") or (VERIF / "evidence"))
 REPLAYS = VERIF / "replays"
 CORPUS = VERIF / "corpus"
 NCPU = os.cpu_count() or 4
